@@ -2,7 +2,7 @@
 
 use frost_core::Identifier;
 
-use crate::prng::Prng;
+use crate::prng::{stream, Prng};
 use crate::scenario::*;
 use crate::suite::*;
 use crate::wire::Fmt;
@@ -340,4 +340,17 @@ fn default_ids_hex_c<C: Suite>(count: usize) -> Vec<String> {
 /// Default identifiers 1..=count in the named suite's encoding (used by the minimiser).
 pub fn default_ids_hex(suite: &str, count: usize) -> Vec<String> {
     crate::dispatch!(suite, default_ids_hex_c(count))
+}
+
+/// Random-source fault "cloned generator state" (two machines restored from one snapshot): with probability 1/`one_in`, one
+/// participant of the world draws exactly what another one draws for the whole run (`extra.rng_alias`; see `Sim::rng`).
+pub fn maybe_rng_alias(s: &mut Scenario, seed: u64, run: u64, one_in: u64) {
+    let mut ap = stream(seed, run, "gen/rng_alias");
+    if s.n >= 2 && ap.chance(1, one_in) {
+        let pair = ap.subset(s.n as usize, 2);
+        if !s.extra.is_object() {
+            s.extra = serde_json::json!({});
+        }
+        s.extra["rng_alias"] = serde_json::json!({pair[1].to_string(): pair[0]});
+    }
 }
